@@ -1,158 +1,414 @@
 import H3.Drv.Util
 import H3.Model.Varint
 import H3.Spec.Framing
+import H3.Spec.Qpack
 import H3.Model.Iso
 import H3.Model.Qpack
 /-! Driver engine `iso` (C07).  Spec half: the non-interference oracle computed from the scenario
     line.  Model half: the `H3.Iso` product machine run on the scenario (section "the model" below);
-    the two halves share only the parsing helpers and the line-based choice of the output format.
+    the two halves share only the parsing helpers and the rendering of a decoded field list in the
+    harness's output format.
 
-    A scenario runs k concurrent requests; the line marks each stream healthy or faulted by what
-    the peer does to it (RESET, STOP_SENDING, a validly encoded but malformed head, an oversized
-    section, FIN before HEADERS).  Oracle: a healthy stream delivers exactly its own bytes in
-    order, completes normally and h3 writes exactly the reply the application submitted on it;
-    a faulted stream reports only stream-level errors of the kind that fits the fault; the
-    connection is never closed and the driver reports no error.  The order in which the ops of
-    different streams appear in the line does not enter the result. -/
+    A scenario runs k concurrent requests.  The oracle reads, per request, what the peer does to it:
+    the bytes delivered (split into frames by the RFC 9114 §7 specification `H3.Spec.Framing.observe`,
+    field sections decoded by the RFC 9204 specification `H3.Spec.Qpack.specDecode`), FIN / RESET /
+    STOP_SENDING, and the calls the application makes.  A request is *faulted* when the peer resets it
+    (any code, any byte offset of an otherwise valid message), asks to stop sending and a write comes
+    after that, delivers a validly encoded but malformed head or trailer section (upper-case field
+    name, RFC 9114 §4.2), a head or trailer section over the limit, or ends the stream before any
+    HEADERS (bare FIN, or FIN behind frames of unknown type).  Oracle: a healthy request delivers
+    exactly its own head, its own body bytes in order, its own trailers, every call completes
+    normally and h3 writes exactly what the application submitted on it; a faulted request reports
+    only stream-level errors of the kind that fits the fault (`q<sid>:E[kinds]:conn=0`, nothing is
+    demanded of its other answers); the connection is never closed and the driver reports no
+    error.  The order in which the ops of different streams appear in the line does not enter the
+    result.  A line that is not a scenario of this kind (a stream used before it exists, calls outside
+    the documented pattern, bytes that are not a prefix of a valid message, two faults on one
+    request) gets `?`: no opinion. -/
 namespace H3.Drv.C07
 open H3.Drv H3.Spec.Framing
 
-/-- GET https://a.b/x, as h3's own client encodes it (size 42) -/
-def goodReq : String := "010d0000d1d750831af1ff518263cf"
-/-- 200, as h3's own server encodes it -/
-def goodResp : String := "01030000d9"
-
-inductive Fault where
-  | none | reset (c : Nat) | stop (c : Nat) | malformed | oversized | finFirst
-deriving Repr, DecidableEq
-
-structure Strm where
-  sid : Nat
-  rx : List Nat := []         -- bytes the peer delivered
-  fin : Bool := false
-  fault : Fault := .none
-  sent : List Nat := []       -- body bytes the application submitted (sd)
-  status : Option String := none
-  finished : Bool := false
-  calls : List String := []   -- the API calls made on the stream's task, in order
-
 def hexOf (s : String) : List Nat := (parseHex s).getD []
-
-def updS (l : List Strm) (sid : Nat) (f : Strm → Strm) : List Strm :=
-  if l.any (·.sid == sid) then l.map (fun s => if s.sid == sid then f s else s)
-  else l ++ [f { sid := sid }]
+def strOf (b : List Nat) : String := String.ofList (b.map Char.ofNat)
+def bytesOf (s : String) : List Nat := s.toList.map Char.toNat
+def hasSub (s pat : String) : Bool := (s.splitOn pat).length > 1
 
 def numPrefix (s : String) : Option (Nat × String) :=
   let ds := s.toList.takeWhile Char.isDigit
   if ds.isEmpty then none else
   (String.ofList ds).toNat?.map (fun n => (n, String.ofList (s.toList.drop ds.length)))
 
-/-- role: true = server (requests arrive), false = client (responses arrive) -/
-def stepOp (server : Bool) (l : List Strm) (op : String) : List Strm :=
-  match op.toList with
+/-- `https://a.b/x`: the target of every request the client application submits -/
+def uriHex : String := "68747470733a2f2f612e622f78"
+
+/-! ### rendering a decoded field list the way the harness prints it (shared by both halves) -/
+
+abbrev Fld := List Nat × List Nat
+
+def ltBytes : List Nat → List Nat → Bool
+  | [], [] => false
+  | [], _ :: _ => true
+  | _ :: _, [] => false
+  | a :: r, b :: s => if a < b then true else if b < a then false else ltBytes r s
+
+/-- stable insertion by name -/
+def insertFld (x : Fld) : List Fld → List Fld
+  | [] => [x]
+  | y :: r => if ltBytes x.1 y.1 then x :: y :: r else y :: insertFld x r
+
+/-- `render_headers`: regular fields sorted by name, the order of one name's values kept; `-` for none -/
+def renderHdrs (fs : List Fld) : String :=
+  let reg := fs.filter (fun f => f.1.head? != some 58)
+  let sorted := reg.foldl (fun acc f => insertFld f acc) []
+  if sorted.isEmpty then "-" else ";".intercalate (sorted.map fun f => strOf f.1 ++ "=" ++ toHex f.2)
+
+def fieldOf (fs : List Fld) (name : String) : String :=
+  match fs.find? (fun f => f.1 == bytesOf name) with
+  | some f => strOf f.2
+  | none => ""
+
+/-- `ok:<method>:<uri hex>:<protocol>:<headers>` (server) / `ok:<status>:<headers>` (client) -/
+def renderHead (server : Bool) (fs : List Fld) : String :=
+  if server then
+    let uri := fieldOf fs ":scheme" ++ "://" ++ fieldOf fs ":authority" ++ fieldOf fs ":path"
+    s!"ok:{fieldOf fs ":method"}:{toHex (bytesOf uri)}:-:{renderHdrs fs}"
+  else s!"ok:{fieldOf fs ":status"}:{renderHdrs fs}"
+
+def renderTrailers (fs : List Fld) : String := "trailers:" ++ renderHdrs fs
+
+/-- the error kind of an answer, as `tools/props/c07.py` extracts it; `conn` = a connection-level error -/
+def errKind (r : String) : Option String × Bool :=
+  if hasSub r "err:conn" then (none, true) else
+  let pick (tag : String) : Option String :=
+    match r.splitOn ("err:" ++ tag) with
+    | _ :: after :: _ =>
+      if tag == "toobig" then some "toobig"
+      else some (tag ++ String.ofList (after.toList.takeWhile (fun ch => ch.isAlphanum || ch == '_')))
+    | _ => none
+  ((pick "rterm:").orElse (fun _ => (pick "stream:").orElse (fun _ => pick "toobig")), false)
+
+def insertSorted (l : List String) (s : String) : List String :=
+  if l.contains s then l else (l.takeWhile (· < s)) ++ [s] ++ (l.dropWhile (· < s))
+
+def eToken (sid : Nat) (kinds : List String) (conn : Bool) : String :=
+  s!"q{sid}:E[{",".intercalate kinds}]:conn={if conn then 1 else 0}"
+
+/-- the request streams of the line: server `o<sid>` with a client-initiated bidirectional id, client one per `snd.R` -/
+def sidsOfLine (server : Bool) (ops : List String) : List Nat :=
+  if server then
+    let l := ops.filterMap (fun op =>
+      match op.toList with
+      | 'o' :: rest => (String.ofList rest).toNat?.bind (fun n => if n % 4 == 0 then some n else none)
+      | _ => none)
+    l.foldl (fun acc n => if acc.contains n then acc else (acc.takeWhile (· < n)) ++ [n] ++ (acc.dropWhile (· < n))) []
+  else (List.range (ops.filter (·.startsWith "snd.R")).length).map (· * 4)
+
+def cfgNat (cfg key : String) : Option Nat :=
+  (cfg.splitOn ",").findSome? (fun t => if t.startsWith (key ++ "=") then ((t.drop (key.length + 1)).toString).toNat? else none)
+
+/-! ### the specification -/
+
+structure SOp where
+  idx : Nat
+  name : String
+  args : List String
+
+structure Strm where
+  sid : Nat
+  /-- client: method of the request the application submitted -/
+  method : String := ""
+  rx : List Nat := []
+  fin : Bool := false
+  reset : Option Nat := none
+  /-- code of the peer's STOP_SENDING and where in the line it stands -/
+  stop : Option (Nat × Nat) := none
+  calls : List SOp := []
+  /-- outside the scenarios of the property (see the file header) -/
+  bad : Bool := false
+
+structure SpecSt where
+  strms : List Strm := []
+  created : Nat := 0
+  bad : Bool := false
+
+def SpecSt.upd (st : SpecSt) (sid : Nat) (f : Strm → Strm) : SpecSt :=
+  if st.strms.any (·.sid == sid) then { st with strms := st.strms.map (fun s => if s.sid == sid then f s else s) }
+  else { st with bad := true }   -- the stream does not exist (yet)
+
+def preOps : List String := ["conn.AL", "drv.W", "o2", "o3", "s2:000400", "s3:000400"]
+
+def specOp (server : Bool) (st : SpecSt) (x : Nat × String) : SpecSt :=
+  let (i, op) := x
+  if preOps.contains op then st
+  else if op.startsWith "snd.R:" then
+    match op.splitOn ":" with
+    | [_, m, u, "-"] =>
+      if server || u != uriHex then { st with bad := true }
+      else { st with strms := st.strms ++ [{ sid := 4 * st.created, method := m }], created := st.created + 1 }
+    | _ => { st with bad := true }
+  else match op.toList with
+  | 'o' :: rest =>
+    match (String.ofList rest).toNat? with
+    | some sid =>
+      if !server || sid % 4 != 0 || st.strms.any (·.sid == sid) then { st with bad := true }
+      else { st with strms := st.strms ++ [{ sid := sid }] }
+    | none => { st with bad := true }
   | 's' :: rest =>
     match numPrefix (String.ofList rest) with
-    | some (sid, r) => if sid % 4 != 0 then l else updS l sid (fun s => { s with rx := s.rx ++ hexOf ((r.drop 1).toString) })
-    | none => l
+    | some (sid, r) =>
+      match parseHex ((r.drop 1).toString) with
+      | some b => st.upd sid (fun s => { s with rx := s.rx ++ b, bad := s.bad || s.fin || s.reset.isSome || b.isEmpty })
+      | none => { st with bad := true }
+    | none => { st with bad := true }
   | 'f' :: rest =>
     match (String.ofList rest).toNat? with
-    | some sid => if sid % 4 != 0 then l else updS l sid (fun s => { s with fin := true, fault := if s.rx.isEmpty && server then .finFirst else s.fault })
-    | none => l
+    | some sid => st.upd sid (fun s => { s with fin := true, bad := s.bad || s.fin || s.reset.isSome })
+    | none => { st with bad := true }
   | 'r' :: rest =>
     match numPrefix (String.ofList rest) with
-    | some (sid, r) => updS l sid (fun s => { s with fault := .reset (((r.drop 1).toString).toNat?.getD 0) })
-    | none => l
+    | some (sid, r) =>
+      match ((r.drop 1).toString).toNat? with
+      | some c => st.upd sid (fun s => { s with reset := some c, bad := s.bad || s.fin || s.reset.isSome })
+      | none => { st with bad := true }
+    | none => { st with bad := true }
   | 'x' :: rest =>
     match numPrefix (String.ofList rest) with
-    | some (sid, r) => updS l sid (fun s => { s with fault := .stop (((r.drop 1).toString).toNat?.getD 0) })
-    | none => l
+    | some (sid, r) =>
+      match ((r.drop 1).toString).toNat? with
+      | some c => st.upd sid (fun s => { s with stop := some (c, i), bad := s.bad || s.stop.isSome })
+      | none => { st with bad := true }
+    | none => { st with bad := true }
+  | 'g' :: 'w' :: rest =>
+    match numPrefix (String.ofList rest) with
+    | some (sid, _) => st.upd sid id
+    | none => { st with bad := true }
   | 'q' :: rest =>
     match numPrefix (String.ofList rest) with
     | some (sid, r) =>
-      let cmd := (r.drop 1).toString
-      let parts := cmd.splitOn ":"
-      updS l sid (fun s =>
-        let s := { s with calls := s.calls ++ [parts.headD ""] }
-        match parts with
-        | ["sd", h] => { s with sent := s.sent ++ hexOf h }
-        | "sr" :: st :: _ => { s with status := some st }
-        | ["fi"] => { s with finished := true }
-        | _ => s)
-    | none => l
-  | _ => l
+      match ((r.drop 1).toString).splitOn ":" with
+      | name :: args => st.upd sid (fun s => { s with calls := s.calls ++ [{ idx := i, name := name, args := args }] })
+      | [] => { st with bad := true }
+    | none => { st with bad := true }
+  | _ => { st with bad := true }
 
-def isPrefixStr (p : List Nat) (l : List Nat) : Bool := l.take p.length == p
+/-- what a field section is, by RFC 9204 (decoding), RFC 9114 §4.2 (upper-case names) and §4.2.2 (the limit) -/
+inductive BlockClass where
+  | ok (fs : List Fld)
+  | malformed
+  | oversized
+  | undecodable
 
-/-- a valid QPACK encoding of a malformed message (upper-case field name) -/
-def badHead : String := "0108000023582d410176"
-/-- first bytes of the generator's oversized head: HEADERS frame of 86 (request) / 132 (response) bytes -/
-def overPrefix (server : Bool) : String := if server then "014056" else "014084"
+/-- where a field section stands in the message -/
+inductive Pos where
+  | request | response | trailers
+deriving DecidableEq
 
-/-- classify what arrived on a stream that the peer did not reset/stop -/
-def classify (server : Bool) (_mfs : Option Nat) (s : Strm) : Fault :=
-  match s.fault with
-  | .none =>
-    if isPrefixStr (hexOf badHead) s.rx then .malformed
-    else if isPrefixStr (hexOf (overPrefix server)) s.rx then .oversized
-    else .none
-  | f => f
+def lowerName (n : List Nat) : Bool := !n.isEmpty && n.all (fun c => decide ((97 ≤ c ∧ c ≤ 122) ∨ (48 ≤ c ∧ c ≤ 57) ∨ c = 45))
+def hasUpper (n : List Nat) : Bool := n.any (fun c => decide (65 ≤ c ∧ c ≤ 90))
+def visible (v : List Nat) : Bool := v.all (fun c => decide (32 ≤ c ∧ c ≤ 126))
 
-def bodyOf (server : Bool) (s : Strm) : String :=
-  let good := hexOf (if server then goodReq else goodResp)
-  let rest := s.rx.drop good.length
-  let toks := observe (rest.length + 1) rest .fin
-  let bytes := toks.foldl (fun acc t => match t with | .data b => acc ++ b | _ => acc) []
-  toHex bytes
+/-- the sections the oracle has an opinion on: the control data RFC 9114 §4.3 demands for the position, first
+    and once (request: `:method` one of the registered methods used here, `:scheme` https, a non-empty
+    `:authority`, a `:path` beginning with `/`; response: a `:status` used here; trailers: none), then regular
+    fields whose names are tokens of letters, digits and `-` and whose values are visible ASCII.  Other
+    sections may be malformed for reasons that are C12's subject: no opinion. -/
+def inVocabulary (pos : Pos) (fs : List Fld) : Bool :=
+  let pseudo := fs.takeWhile (fun f => f.1.head? == some 58)
+  let regular := fs.dropWhile (fun f => f.1.head? == some 58)
+  let regOk := regular.all (fun f => lowerName (f.1.map (fun c => if 65 ≤ c ∧ c ≤ 90 then c + 32 else c)) && visible f.2)
+  let ctlOk : Bool :=
+    match pos, pseudo.map (fun f => (strOf f.1, strOf f.2)) with
+    | .request, [(":method", m), (":scheme", "https"), (":authority", a), (":path", p)] =>
+      ["GET", "POST", "PUT", "DELETE", "HEAD", "OPTIONS"].contains m && a != "" && visible (bytesOf a) &&
+        p.startsWith "/" && visible (bytesOf p)
+    | .response, [(":status", st)] => ["200", "304", "404", "503"].contains st
+    | .trailers, [] => true
+    | _, _ => false
+  regOk && ctlOk
 
-def dataFrames (sent : List Nat) : List Nat := sent  -- placeholder (frames are rebuilt per call below)
+def classifyBlock (pos : Pos) (mfs : Option Nat) (b : List Nat) : BlockClass :=
+  match H3.Spec.Qpack.specDecode b with
+  | .error _ => .undecodable
+  | .ok fs =>
+    if (match mfs with | some m => decide (H3.Spec.Qpack.size fs > m) | none => false) then .oversized
+    else if !inVocabulary pos fs then .undecodable
+    else if fs.any (fun f => hasUpper f.1) then .malformed
+    else .ok fs
 
-/-- bytes h3 must have written on a healthy stream: the head, one DATA frame per `sd` call, FIN -/
-def expectedTx (server : Bool) (ops : List String) (sid : Nat) : String :=
-  let pre := s!"q{sid}."
-  let frames := ops.foldl (fun acc op =>
-    if op.startsWith pre then
-      match ((op.drop pre.length).toString).splitOn ":" with
-      | ["sd", h] => let b := hexOf h; acc ++ [0] ++ Varint.encode b.length ++ b
-      | _ => acc
-    else acc) []
-  toHex ((if server then hexOf goodResp else hexOf goodReq) ++ frames)
+/-- a message as RFC 9114 §4.1 frames it: U* H (U|D)* (H U*)?, read off the tokens of the framing specification -/
+structure Msg where
+  head : Option (List Nat) := none
+  body : List Nat := []
+  trailers : Option (List Nat) := none
+  /-- the tokens fit the grammar and end with the expected ending -/
+  clean : Bool := false
 
-def renderFaultSpec (server : Bool) (f : Fault) : String :=
-  match f with
-  | .reset c => s!"[rterm:{c}]"
-  | .stop c => s!"[rterm:{c}]"
-  | .malformed => "[stream:H3_MESSAGE_ERROR]"
-  | .oversized => "[toobig]"
-  | .finFirst => if server then "[stream:H3_REQUEST_INCOMPLETE]" else "*"
-  | .none => "[]"
+/-- phase 0 before the head, 1 in the body, 2 behind the trailers; `last` = the token of the expected ending -/
+def parseMsg (last : Tok) : Nat → Msg → List Tok → Msg
+  | _, m, [] => m
+  | _, m, [t] => if t == last then { m with clean := true } else m
+  | 0, m, .frame (.headers b) :: r => parseMsg last 1 { m with head := some b } r
+  | 1, m, .frame (.data _) :: r => parseMsg last 1 m r
+  | 1, m, .data bs :: r => parseMsg last 1 { m with body := m.body ++ bs } r
+  | 1, m, .frame (.headers t) :: r => parseMsg last 2 { m with trailers := some t } r
+  | _, m, _ => m
+
+def msgOf (rx : List Nat) (fin : Bool) : Msg :=
+  parseMsg (if fin then .none_ else .pending) 0 {} (observe (rx.length + 1) rx (if fin then .fin else .open_))
+
+def staticByte (name value : List Nat) : Option Nat :=
+  match H3.Spec.Qpack.staticTable.findIdx? (fun e => e.1 == name && e.2 == value) with
+  | some i => if i < 63 then some (0xC0 + i) else none
+  | none => none
+
+/-- a HEADERS frame whose section is one statically indexed field line -/
+def oneFieldFrame (name value : List Nat) : Option (List Nat) :=
+  (staticByte name value).map (fun b => [0x01, 0x03, 0x00, 0x00, b])
+
+/-- h3's request head for `<method> https://a.b/x`: method and scheme statically indexed, authority
+    and path literal with a static name reference, Huffman coded (constant: fixed target) -/
+def requestFrame (method : String) : Option (List Nat) :=
+  (staticByte (bytesOf ":method") (bytesOf method)).map (fun b =>
+    [0x01, 0x0d, 0x00, 0x00, b] ++ hexOf "d750831af1ff518263cf")
+
+def isWriteName (n : String) : Bool := n == "sr" || n == "sd" || n == "st"
+def isSendName (n : String) : Bool := isWriteName n || n == "fi"
+
+/-- send calls in the order `sr? sd* st? fi?` -/
+def sendOrderOk : Nat → List String → Bool
+  | _, [] => true
+  | ph, n :: r =>
+    if n == "sr" then ph == 0 && sendOrderOk 1 r
+    else if n == "sd" then ph ≤ 1 && sendOrderOk 1 r
+    else if n == "st" then ph ≤ 1 && sendOrderOk 2 r
+    else if n == "fi" then ph ≤ 2 && sendOrderOk 3 r
+    else false
+
+/-- the bytes h3 must write for the send calls of a healthy request -/
+def expectedTx (server : Bool) (s : Strm) : Option (List Nat) :=
+  let start : Option (List Nat) := if server then some [] else requestFrame s.method
+  s.calls.foldl (fun acc c =>
+    acc.bind (fun tx =>
+      if c.name == "sr" then
+        match c.args with
+        | [status, "-"] => (oneFieldFrame (bytesOf ":status") (bytesOf status)).map (tx ++ ·)
+        | _ => none
+      else if c.name == "sd" then
+        match c.args with
+        | [h] => (parseHex h).map (fun b => tx ++ [0] ++ Varint.encode b.length ++ b)
+        | _ => none
+      else if c.name == "st" then
+        match c.args with
+        | [kv] =>
+          match kv.splitOn "=" with
+          | [k, v] => (parseHex v).bind (fun vb => (oneFieldFrame (bytesOf k) vb).map (tx ++ ·))
+          | _ => none
+        | _ => none
+      else if c.name == "fi" then (if c.args.isEmpty then some tx else none)
+      else some tx)) start
+
+/-- one request: the alternatives for its `E` token and its second token; `none` = no opinion on the line -/
+def specStream (server : Bool) (mfs wc : Option Nat) (s : Strm) : Option (List String × String) :=
+  if s.bad then none else
+  let headName := if server then "res" else "rr"
+  let headPos : Pos := if server then .request else .response
+  let recv := (s.calls.filter (fun c => !isSendName c.name)).map (·.name)
+  let sends := s.calls.filter (fun c => isSendName c.name)
+  let patternOk := recv == [headName, "rm"] || recv == [headName, "rb", "rt"]
+  let headIdx := ((s.calls.find? (fun c => c.name == headName)).map (·.idx)).getD 0
+  -- server: the request task takes send commands only once `res` has been posted
+  let sendsOk := sendOrderOk 0 (sends.map (·.name)) && (!server || sends.all (fun c => c.idx > headIdx)) &&
+    (server || !sends.any (fun c => c.name == "sr"))
+  if !patternOk || !sendsOk then none else
+  let fault (kinds : List String) : Option (List String × String) := some ([eToken s.sid kinds false], "*")
+  match s.reset with
+  | some c =>
+    -- RESET with any code at any byte offset of an otherwise valid message
+    let m := msgOf s.rx false
+    let headOk := match m.head with
+      | some b => (match classifyBlock headPos mfs b with | .ok _ => true | _ => false)
+      | none => true
+    if s.fin || !m.clean || !headOk || s.stop.isSome then none else fault [s!"rterm:{c}"]
+  | none =>
+    let m := msgOf s.rx true
+    if !s.fin || !m.clean then none else
+    match m.head with
+    | none =>
+      -- abandoned before its headers (RFC 9114 §4.1; client: §4.1.2, reading R-07)
+      if s.stop.isSome then none
+      else fault [if server then "stream:H3_REQUEST_INCOMPLETE" else "stream:H3_MESSAGE_ERROR"]
+    | some hb =>
+      match classifyBlock headPos mfs hb with
+      | .undecodable => none
+      | .oversized => if s.stop.isSome then none else fault ["toobig"]
+      | .malformed => if s.stop.isSome then none else fault ["stream:H3_MESSAGE_ERROR"]
+      | .ok hfs =>
+        -- the trailers: `some (some t)` good, `some none` absent, `none` faulted (kinds) or undecodable (no kinds)
+        let trailersClass : Option (Option (List Fld)) × List String :=
+          match m.trailers with
+          | none => (some none, [])
+          | some tb =>
+            match classifyBlock .trailers mfs tb with
+            | .ok tfs => (some (some tfs), [])
+            | .oversized => (none, ["toobig"])
+            | .malformed => (none, ["stream:H3_MESSAGE_ERROR"])
+            | .undecodable => (none, [])
+        match trailersClass with
+        | (none, []) => none
+        | (none, kinds) => if s.stop.isSome then none else fault kinds
+        | (some tfs, _) =>
+          -- the receive side is healthy; STOP_SENDING is a fault once a write meets it
+          let healthy : Option (List String × String) :=
+            (expectedTx server s).map (fun tx =>
+              let trs := match tfs with | some t => renderTrailers t | none => "none"
+              let res := s.calls.map (fun c =>
+                if c.name == headName then s!"{c.name}={renderHead server hfs}"
+                else if c.name == "rm" then s!"rm=body:{toHex m.body}:{trs}"
+                else if c.name == "rb" then s!"rb=body:{toHex m.body}"
+                else if c.name == "rt" then s!"rt={trs}"
+                else s!"{c.name}=ok")
+              ([eToken s.sid [] false],
+               s!"q{s.sid}:{",".intercalate res};tx={toHex tx}" ++ (if s.calls.any (·.name == "fi") then ",fin" else "")))
+          match s.stop with
+          | none => healthy
+          | some (c, ix) =>
+            let after := s.calls.any (fun k => isWriteName k.name && k.idx > ix)
+            let before := s.calls.any (fun k => isWriteName k.name && k.idx < ix)
+            -- a write posted earlier may still be waiting when the STOP_SENDING arrives: for credit (back-pressure), or
+            -- in the task's queue behind a receive call that is pending (the task makes its calls one after the other)
+            let queued := s.calls.any (fun k => isWriteName k.name && k.idx < ix &&
+              s.calls.any (fun r => !isSendName r.name && r.idx < k.idx))
+            if after then fault [s!"rterm:{c}"]
+            else if before && (wc.isSome || queued) then
+              some ([eToken s.sid [] false, eToken s.sid [s!"rterm:{c}"] false], "*")
+            else healthy
 
 /-- the specification's answer, computed from the line alone -/
 def specOf (server : Bool) (cfg : String) (ops : List String) : String :=
-    let mfs := (cfg.splitOn ",").findSome? (fun t => if t.startsWith "mfs=" then ((t.drop 4).toString).toNat? else none)
-    let strms := ops.foldl (stepOp server) []
-    let strms := strms.filter (fun s => s.sid % 4 == 0)
-    let strms := strms.foldl (fun acc s =>
-      (acc.takeWhile (·.sid < s.sid)) ++ [s] ++ (acc.dropWhile (·.sid < s.sid))) []
-    let parts := strms.map (fun s =>
-      match classify server mfs s with
-      | .none =>
-        let head := if server then "res=ok" else "rr=ok"
-        let calls := s.calls.filter (fun c => c != "res" && c != "rr" && c != "rm")
-        let callRes := calls.map (fun c => c ++ "=ok")
-        let all := [head, s!"rm=body:{bodyOf server s}:none"] ++ callRes
-        s!"q{s.sid}:" ++ ",".intercalate all ++ s!";tx={expectedTx server ops s.sid}" ++ (if s.finished then ",fin" else "")
-      | f => s!"q{s.sid}:fault:{renderFaultSpec server f}:conn=0 *")
-    " ".intercalate (parts ++ ["closed=[]", "driver=ok"])
+  let st := (List.zip (List.range ops.length) ops).foldl (specOp server) {}
+  if st.bad then "?" else
+  let mfs := cfgNat cfg "mfs"
+  let wc := cfgNat cfg "wc"
+  let strms := st.strms.foldl (fun acc s => (acc.takeWhile (·.sid < s.sid)) ++ [s] ++ (acc.dropWhile (·.sid < s.sid))) []
+  match strms.mapM (specStream server mfs wc) with
+  | none => "?"
+  | some parts =>
+    -- every combination of the alternatives
+    let alts : List (List String) := parts.foldl (fun acc p =>
+      acc.flatMap (fun pre => p.1.map (fun e => pre ++ [e, p.2]))) [[]]
+    " || ".intercalate (alts.map (fun toks => " ".intercalate (toks ++ ["closed=[]", "driver=ok"])))
 
 /-! ### the model: the scenario run through `H3.Iso`
 
 The scenario interpreter's tasks are mirrored the way `ReqRecv.Sim` does it: every request has a
 task that executes its commands in order; a command whose call is `Pending` stays in flight and is
-polled again when the next peer event for that stream arrives; commands posted meanwhile wait in
-the task's mailbox.  Each poll is one `H3.Iso.step`; after every op the driver is polled
-(`H3.Iso.drive`).  The header oracle is the QPACK model (`H3.Qpack.recvSite`: limit, decoding
-errors) plus the one validity rule the generator's malformed head breaks (upper-case letter in a
-field name, RFC 9114 §4.2); the 431 is what `H3.Qpack.sendSite` writes under the default limit. -/
+polled again when the next peer event for that stream arrives (bytes, FIN, RESET, STOP_SENDING, a
+credit grant); commands posted meanwhile wait in the task's mailbox.  Each poll is one
+`H3.Iso.step`; after every op the driver is polled (`H3.Iso.drive`).  The header oracle is the QPACK
+model (`H3.Qpack.recvSite`: limit, decoding errors) plus the one validity rule the generator's
+malformed sections break (upper-case letter in a field name, RFC 9114 §4.2); what the application
+submits is encoded by the encoder model (`H3.Qpack.sendSite`).  `rxhalt=1` (R-07): once a receive
+command has answered an error the task's later receive commands are not made. -/
 
 open H3.Iso in
 def hdrOracle (site : H3.Qpack.RecvSite) (mfs : Nat) (b : List Nat) : HClass :=
@@ -161,25 +417,37 @@ def hdrOracle (site : H3.Qpack.RecvSite) (mfs : Nat) (b : List Nat) : HClass :=
   | .tooBig _ _ _ => .tooBig
   | .connError _ => .qpack
 
+/-- the fields the model's decoder reads out of a block the oracle accepted -/
+def modelFields (site : H3.Qpack.RecvSite) (mfs : Nat) (b : List Nat) : List Fld :=
+  match H3.Qpack.recvSite site mfs b with
+  | .fields fs => fs.map (fun f => (f.name, f.value))
+  | _ => []
+
 open H3.Iso in
-def cfgOf (server : Bool) (mfs : Nat) : Cfg :=
+def cfgOf (server : Bool) (mfs : Nat) (wc : Option Nat) : Cfg :=
   { role := if server then .server else .client
     hdr := { head := hdrOracle (if server then .serverRequest else .clientResponse) mfs
              trailer := hdrOracle (if server then .serverTrailers else .clientTrailers) mfs }
     resp431 := match H3.Qpack.sendSite none H3.Qpack.response431 with
       | .written b => some b
-      | _ => none }
+      | _ => none
+    wc := wc }
 
 def codeName (c : Nat) : String :=
   if c == H3.Gen.Consts.CODE_H3_MESSAGE_ERROR then "H3_MESSAGE_ERROR"
   else if c == H3.Gen.Consts.CODE_H3_REQUEST_INCOMPLETE then "H3_REQUEST_INCOMPLETE"
   else toString c
 
-def renderRes : H3.ReqRecv.Res → String
-  | .head _ => "ok"
+/-- how decoded sections are printed: the head, the trailers -/
+structure Rend where
+  head : List Nat → String
+  trailers : List Nat → String
+
+def renderRes (rd : Rend) : H3.ReqRecv.Res → String
+  | .head b => rd.head b
   | .data b => "data:" ++ toHex b
   | .end_ => "end"
-  | .trailers _ => "trailers"
+  | .trailers b => rd.trailers b
   | .noTrailers => "none"
   | .errConn c => s!"err:conn:{c}"
   | .errStream c => s!"err:stream:{codeName c}"
@@ -188,21 +456,32 @@ def renderRes : H3.ReqRecv.Res → String
   | .panic => "PANIC"
   | .invalid => "INVALID"
 
-def renderAns : H3.Iso.Ans → String
-  | .res r => renderRes r
+def renderAns (rd : Rend) : H3.Iso.Ans → String
+  | .res r => renderRes rd r
   | .tooBig => "err:toobig"
+
+inductive CmdKind where
+  /-- one call, polled until it answers -/
+  | one (c : H3.Iso.Call)
+  /-- `recv_data` until it answers `None` or an error -/
+  | rb
+
+structure Cmd where
+  name : String
+  kind : CmdKind
+  /-- a call of the receive pattern (R-07) -/
+  recv : Bool := false
 
 structure Task where
   sid : Nat
-  /-- command in flight: its name and its call -/
-  inflight : Option (String × H3.Iso.Call) := none
-  mailbox : List (String × H3.Iso.Call) := []
-  /-- `rm`: body bytes handed out so far -/
+  inflight : Option Cmd := none
+  mailbox : List Cmd := []
+  /-- `rm` / `rb`: body bytes handed out so far -/
   acc : List Nat := []
   /-- completed commands `(name, result)`, oldest first -/
   results : List (String × String) := []
-  /-- bytes arrived (the stream is listed even when no command completed) -/
-  seen : Bool := false
+  /-- a receive command has answered an error -/
+  rxDead : Bool := false
 
 def isPendingRes : H3.ReqRecv.Res → Bool
   | .pending => true
@@ -215,24 +494,24 @@ def isPendingAns : H3.Iso.Ans → Bool
 def dataOf (rs : List H3.ReqRecv.Res) : List Nat :=
   rs.foldl (fun a r => match r with | .data d => a ++ d | _ => a) []
 
-/-- one poll of the command in flight: `none` = still pending (progress kept in `acc`) -/
-def pollCmd (t : Task) (o : H3.Iso.Obs) : Task × Option String :=
+/-- what one poll of a single-call command means for the task: `none` = still pending (progress kept in `acc`) -/
+def pollCmd (rd : Rend) (t : Task) (o : H3.Iso.Obs) : Task × Option String :=
   match o with
   | .quiet => (t, some "?")
   | .ok => (t, some "ok")
   | .noHandle => (t, some "no-task")
-  | .ans a => if isPendingAns a then (t, none) else (t, some (renderAns a))
+  | .ans a => if isPendingAns a then (t, none) else (t, some (renderAns rd a))
   | .body rs tr =>
     let acc := t.acc ++ dataOf rs
     let t := { t with acc := acc }
     match tr with
     | some a =>
       if isPendingAns a then (t, none)
-      else ({ t with acc := [] }, some s!"body:{toHex acc}:{renderAns a}")
+      else ({ t with acc := [] }, some s!"body:{toHex acc}:{renderAns rd a}")
     | none =>
       match rs.getLast? with
       | some .pending => (t, none)
-      | some r => ({ t with acc := [] }, some s!"body:{toHex acc}:{renderRes r}")
+      | some r => ({ t with acc := [] }, some s!"body:{toHex acc}:{renderRes rd r}")
       | none => (t, none)
 
 /-- `body` polls get the fuel that bounds the run of the stream's receive half -/
@@ -240,21 +519,51 @@ def withFuel (c : H3.Iso.Conn) (sid : Nat) : H3.Iso.Call → H3.Iso.Call
   | .body _ => .body (H3.ReqRecv.fsFuel (c.get sid).rx.src)
   | x => x
 
+/-- `rb`: `recv_data` polls until one answers something else than data -/
+def pollRb (rd : Rend) (cfg : H3.Iso.Cfg) : Nat → H3.Iso.Conn → Task → H3.Iso.Conn × Task × Option String
+  | 0, c, t => (c, t, some "INVALID")
+  | n+1, c, t =>
+    let (c', o) := H3.Iso.step cfg c (t.sid, .call .data)
+    match o with
+    | .ans (.res (.data d)) => pollRb rd cfg n c' { t with acc := t.acc ++ d }
+    | .ans (.res .pending) => (c', t, none)
+    | .ans (.res .end_) => (c', { t with acc := [] }, some s!"body:{toHex t.acc}")
+    | .ans a => (c', { t with acc := [] }, some s!"body:{toHex t.acc}:{renderAns rd a}")
+    | .noHandle => (c', t, some "no-task")
+    | _ => (c', t, some "?")
+
+/-- one poll of the command in flight -/
+def pollInflight (rd : Rend) (cfg : H3.Iso.Cfg) (c : H3.Iso.Conn) (t : Task) (cmd : Cmd) :
+    H3.Iso.Conn × Task × Option String :=
+  match cmd.kind with
+  | .one call =>
+    let (c', o) := H3.Iso.step cfg c (t.sid, .call (withFuel c t.sid call))
+    let (t', r) := pollCmd rd t o
+    (c', t', r)
+  | .rb => pollRb rd cfg (H3.ReqRecv.fsFuel (c.get t.sid).rx.src + 1) c t
+
 /-- run the task until a command is pending or nothing is left to do -/
-def pump (cfg : H3.Iso.Cfg) : Nat → H3.Iso.Conn → Task → H3.Iso.Conn × Task
+def pump (rd : Rend) (rxhalt : Bool) (cfg : H3.Iso.Cfg) : Nat → H3.Iso.Conn → Task → H3.Iso.Conn × Task
   | 0, c, t => (c, t)
   | n+1, c, t =>
     match t.inflight with
-    | some (name, call) =>
-      let (c', o) := H3.Iso.step cfg c (t.sid, .call (withFuel c t.sid call))
-      let (t', r) := pollCmd t o
+    | some cmd =>
+      let (c', t', r) := pollInflight rd cfg c t cmd
       match r with
       | none => (c', t')
-      | some res => pump cfg n c' { t' with inflight := none, results := t'.results ++ [(name, res)] }
+      | some res =>
+        let t' := { t' with inflight := none, results := t'.results ++ [(cmd.name, res)],
+                            rxDead := t'.rxDead || (cmd.recv && hasSub res "err:") }
+        -- a failed `resolve_request` ends the request task: what waits in its mailbox is never executed
+        let t' := if (c'.get t.sid).gone then { t' with mailbox := [] } else t'
+        pump rd rxhalt cfg n c' t'
     | none =>
       match t.mailbox with
       | [] => (c, t)
-      | x :: rest => pump cfg n c { t with inflight := some x, mailbox := rest }
+      | x :: rest =>
+        if rxhalt && x.recv && t.rxDead then
+          pump rd rxhalt cfg n c { t with mailbox := rest, results := t.results ++ [(x.name, "skipped")] }
+        else pump rd rxhalt cfg n c { t with inflight := some x, mailbox := rest }
 
 structure MState where
   conn : H3.Iso.Conn := {}
@@ -267,115 +576,126 @@ def putTask (m : MState) (t : Task) : MState :=
   if m.tasks.any (·.sid == t.sid) then { m with tasks := m.tasks.map (fun x => if x.sid == t.sid then t else x) }
   else { m with tasks := m.tasks ++ [t] }
 
-def pumpTask (cfg : H3.Iso.Cfg) (m : MState) (t : Task) : MState :=
-  let (c, t') := pump cfg (2 * t.mailbox.length + 3) m.conn t
+structure Env where
+  server : Bool
+  cfg : H3.Iso.Cfg
+  rd : Rend
+  rxhalt : Bool
+
+def pumpTask (e : Env) (m : MState) (t : Task) : MState :=
+  let (c, t') := pump e.rd e.rxhalt e.cfg (2 * t.mailbox.length + 3) m.conn t
   putTask { m with conn := c } t'
 
-def peerOp (cfg : H3.Iso.Cfg) (m : MState) (sid : Nat) (p : H3.Iso.Peer) (seen : Bool) : MState :=
+def peerOp (e : Env) (m : MState) (sid : Nat) (p : H3.Iso.Peer) : MState :=
   if sid % 4 != 0 then m else
-  let c := (H3.Iso.step cfg m.conn (sid, .peer p)).1
+  let c := (H3.Iso.step e.cfg m.conn (sid, .peer p)).1
+  pumpTask e { m with conn := c } (getTask m sid)
+
+def callOp (e : Env) (m : MState) (sid : Nat) (cmd : Cmd) : MState :=
   let t := getTask m sid
-  pumpTask cfg { m with conn := c } { t with seen := t.seen || seen }
+  pumpTask e m { t with mailbox := t.mailbox ++ [cmd] }
 
-def callOp (cfg : H3.Iso.Cfg) (m : MState) (sid : Nat) (name : String) (call : H3.Iso.Call) : MState :=
-  let t := getTask m sid
-  pumpTask cfg m { t with mailbox := t.mailbox ++ [(name, call)] }
+def parseHdrs (h : String) : List H3.Qpack.Field :=
+  if h == "-" then []
+  else (h.splitOn ";").filterMap fun kv =>
+    match kv.splitOn "=" with
+    | [k, v] => (parseHex v).map fun v => ⟨bytesOf k, v⟩
+    | _ => none
 
-def blockOf (frameHex : String) : List Nat := (hexOf frameHex).drop 2
+/-- the QPACK block h3's encoder writes for these fields (`[]` if it refuses: never for the scenarios) -/
+def blockOf (fs : List H3.Qpack.Field) : List Nat :=
+  match H3.Qpack.sendSite none fs with
+  | .written b => b
+  | _ => []
 
-def modelOp (server : Bool) (cfg : H3.Iso.Cfg) (m : MState) (op : String) : MState :=
+/-- `<scheme>://<authority><path>` -/
+def uriFields (u : String) : List H3.Qpack.Field :=
+  match (strOf (hexOf u)).splitOn "://" with
+  | [scheme, rest] =>
+    let auth := String.ofList (rest.toList.takeWhile (· != '/'))
+    let path := String.ofList (rest.toList.dropWhile (· != '/'))
+    [⟨bytesOf ":scheme", bytesOf scheme⟩, ⟨bytesOf ":authority", bytesOf auth⟩,
+     ⟨bytesOf ":path", bytesOf (if path == "" then "/" else path)⟩]
+  | _ => []
+
+def modelOp (e : Env) (m : MState) (op : String) : MState :=
   let m' :=
-    if op.startsWith "snd.R" then
-      let sid := 4 * m.created
-      callOp cfg { m with created := m.created + 1 } sid "R" (.sendHead (blockOf goodReq))
+    if op.startsWith "snd.R:" then
+      match op.splitOn ":" with
+      | [_, method, u, hdrs] =>
+        let sid := 4 * m.created
+        let fs : List H3.Qpack.Field := { name := bytesOf ":method", value := bytesOf method } :: (uriFields u ++ parseHdrs hdrs)
+        callOp e { m with created := m.created + 1 } sid { name := "R", kind := .one (.sendHead (blockOf fs)) }
+      | _ => m
     else match op.toList with
     | 's' :: rest =>
       match numPrefix (String.ofList rest) with
       | some (sid, r) =>
         let b := hexOf ((r.drop 1).toString)
-        if b.isEmpty then m else peerOp cfg m sid (.chunk b) true
+        if b.isEmpty then m else peerOp e m sid (.chunk b)
       | none => m
     | 'f' :: rest =>
       match (String.ofList rest).toNat? with
-      | some sid => peerOp cfg m sid .fin false
+      | some sid => peerOp e m sid .fin
       | none => m
     | 'r' :: rest =>
       match numPrefix (String.ofList rest) with
-      | some (sid, r) => peerOp cfg m sid (.reset (((r.drop 1).toString).toNat?.getD 0)) false
+      | some (sid, r) => peerOp e m sid (.reset (((r.drop 1).toString).toNat?.getD 0))
       | none => m
     | 'x' :: rest =>
       match numPrefix (String.ofList rest) with
-      | some (sid, r) => peerOp cfg m sid (.stop (((r.drop 1).toString).toNat?.getD 0)) false
+      | some (sid, r) => peerOp e m sid (.stop (((r.drop 1).toString).toNat?.getD 0))
+      | none => m
+    | 'g' :: 'w' :: rest =>
+      match numPrefix (String.ofList rest) with
+      | some (sid, r) => peerOp e m sid (.grant (((r.drop 1).toString).toNat?.getD 0))
       | none => m
     | 'q' :: rest =>
       match numPrefix (String.ofList rest) with
       | some (sid, r) =>
         let cmd := (r.drop 1).toString
         match cmd.splitOn ":" with
-        | ["res"] => callOp cfg m sid "res" .head
-        | ["rr"] => callOp cfg m sid "rr" .head
-        | ["rm"] => callOp cfg m sid "rm" (.body 0)
-        | ["sd", h] => callOp cfg m sid "sd" (.sendData (hexOf h))
-        | "sr" :: _ => callOp cfg m sid "sr" (.sendHead (blockOf goodResp))
-        | ["fi"] => callOp cfg m sid "fi" .finish
+        | ["res"] => callOp e m sid { name := "res", kind := .one .head }
+        | ["rr"] => callOp e m sid { name := "rr", kind := .one .head, recv := true }
+        | ["rm"] => callOp e m sid { name := "rm", kind := .one (.body 0), recv := true }
+        | ["rb"] => callOp e m sid { name := "rb", kind := .rb, recv := true }
+        | ["rt"] => callOp e m sid { name := "rt", kind := .one .trailers, recv := true }
+        | ["sd", h] => callOp e m sid { name := "sd", kind := .one (.sendData (hexOf h)) }
+        | ["sr", status, hdrs] =>
+          let fs : List H3.Qpack.Field := { name := bytesOf ":status", value := bytesOf status } :: parseHdrs hdrs
+          callOp e m sid { name := "sr", kind := .one (.sendHead (blockOf fs)) }
+        | ["st", hdrs] => callOp e m sid { name := "st", kind := .one (.sendTrailers (blockOf (parseHdrs hdrs))) }
+        | ["fi"] => callOp e m sid { name := "fi", kind := .one .finish }
         | _ => m
       | none => m
     | _ => m
-  let _ := server
   { m' with conn := H3.Iso.drive m'.conn }
 
-def insertSorted (l : List String) (s : String) : List String :=
-  if l.contains s then l else (l.takeWhile (· < s)) ++ [s] ++ (l.dropWhile (· < s))
-
-/-- the error kinds of a result string, as `tools/props/c07.py` extracts them -/
-def errKinds (r : String) : List String × Bool :=
-  let conn := (r.splitOn "err:conn").length > 1
-  let pick (tag : String) : List String :=
-    match r.splitOn ("err:" ++ tag) with
-    | _ :: after :: _ =>
-      if tag == "toobig" then ["toobig"]
-      else [tag ++ String.ofList (after.toList.takeWhile (fun ch => ch.isAlphanum || ch == '_'))]
-    | _ => []
-  (if conn then [] else (pick "rterm:" ++ pick "stream:" ++ pick "toobig").take 1, conn)
-
-def renderTask (server : Bool) (faulted : Bool) (c : H3.Iso.Conn) (t : Task) : String :=
-  if faulted then
-    let (errs, conn) := t.results.foldl (fun (acc : List String × Bool) (x : String × String) =>
-      let (es, cn) := errKinds x.2
-      (es.foldl insertSorted acc.1, acc.2 || cn)) ([], false)
-    let r := c.get t.sid
-    s!"q{t.sid}:fault:[{",".intercalate errs}]:conn={if conn then 1 else 0} q{t.sid}:wire:tx={toHex r.snd.tx}" ++
+def renderTask (c : H3.Iso.Conn) (t : Task) : String :=
+  let results := t.results.filter (fun x => x.1 != "R")
+  let (errs, conn) := results.foldl (fun (acc : List String × Bool) (x : String × String) =>
+    let (k, cn) := errKind x.2
+    ((match k with | some k => insertSorted acc.1 k | none => acc.1), acc.2 || cn)) ([], false)
+  let r := c.get t.sid
+  eToken t.sid errs conn ++ " " ++
+    s!"q{t.sid}:" ++ ",".intercalate (results.map (fun x => x.1 ++ "=" ++ x.2)) ++ s!";tx={toHex r.snd.tx}" ++
       (if r.snd.fin then ",fin" else "") ++
       (match r.rx.env.rst with | some k => s!",rst={k}" | none => "") ++
       (match r.rx.env.stop with | some k => s!",stop={k}" | none => "")
-  else
-    let show1 (x : String × String) : String := x.1 ++ "=" ++ x.2
-    let heads := (t.results.filter (fun x => x.1 == "res" || x.1 == "rr")).map show1
-    let rms := (t.results.filter (fun x => x.1 == "rm")).map show1
-    let others := (t.results.filter (fun x => x.1 != "res" && x.1 != "rr" && x.1 != "rm" && x.1 != "R")).map show1
-    let r := c.get t.sid
-    let extra := (match r.rx.env.rst with | some k => s!"rst={k}" | none => "") ++
-                 (match r.rx.env.stop with | some k => s!"stop={k}" | none => "")
-    let _ := server
-    s!"q{t.sid}:" ++ ",".intercalate (heads ++ rms ++ others) ++ s!";tx={toHex r.snd.tx}" ++
-      (if r.snd.fin then ",fin" else "") ++ (if extra == "" then "" else "," ++ extra)
 
 /-- the model's answer: the scenario run through the product machine -/
 def modelOf (server : Bool) (cfgs : String) (ops : List String) : String :=
-  let mfs := ((cfgs.splitOn ",").findSome? (fun t => if t.startsWith "mfs=" then ((t.drop 4).toString).toNat? else none)).getD
-    H3.Gen.Field.DEFAULT_MAX_FIELD_SECTION_SIZE
-  let cfg := cfgOf server mfs
-  let m := ops.foldl (modelOp server cfg) {}
-  -- which streams does the LINE fault? (decides the output format only, as in `c07.py`)
-  let mfsO := (cfgs.splitOn ",").findSome? (fun t => if t.startsWith "mfs=" then ((t.drop 4).toString).toNat? else none)
-  let strms := (ops.foldl (stepOp server) []).filter (fun s => s.sid % 4 == 0)
-  let isFaulted (sid : Nat) : Bool :=
-    match strms.find? (·.sid == sid) with
-    | some s => classify server mfsO s != .none
-    | none => false
-  let tasks := m.tasks.filter (fun t => t.sid % 4 == 0 && (t.seen || t.results.any (fun x => x.1 != "R")))
-  let tasks := tasks.foldl (fun acc t => (acc.takeWhile (·.sid < t.sid)) ++ [t] ++ (acc.dropWhile (·.sid < t.sid))) []
-  let parts := tasks.map (fun t => renderTask server (isFaulted t.sid) m.conn t)
+  let mfs := (cfgNat cfgs "mfs").getD H3.Gen.Field.DEFAULT_MAX_FIELD_SECTION_SIZE
+  let headSite : H3.Qpack.RecvSite := if server then .serverRequest else .clientResponse
+  let trSite : H3.Qpack.RecvSite := if server then .serverTrailers else .clientTrailers
+  let e : Env :=
+    { server := server
+      cfg := cfgOf server mfs (cfgNat cfgs "wc")
+      rd := { head := fun b => renderHead server (modelFields headSite mfs b)
+              trailers := fun b => renderTrailers (modelFields trSite mfs b) }
+      rxhalt := cfgNat cfgs "rxhalt" == some 1 }
+  let m := ops.foldl (modelOp e) {}
+  let parts := (sidsOfLine server ops).map (fun sid => renderTask m.conn (getTask m sid))
   let closed := ",".intercalate (m.conn.closed.map toString)
   " ".intercalate (parts ++ [s!"closed=[{closed}]", if m.conn.closed.isEmpty then "driver=ok" else "driver=err"])
 
